@@ -1916,6 +1916,8 @@ impl Typer {
                         tast::Ty::TRef {
                             elem: Box::new(elem_ty),
                         }
+                    } else if name.as_str() == "array_set" && args_tast.len() == 3 {
+                        args_tast[0].get_ty()
                     } else {
                         self.fresh_ty_var()
                     };
@@ -2011,6 +2013,8 @@ impl Typer {
                         tast::Ty::TRef {
                             elem: Box::new(elem_ty),
                         }
+                    } else if name.as_str() == "array_set" && args_tast.len() == 3 {
+                        args_tast[0].get_ty()
                     } else {
                         self.fresh_ty_var()
                     };
